@@ -84,6 +84,20 @@ def install(ctx):
         ip.path.counter += 1
         return AtomicM('atomic#%d' % ip.path.counter, Cell(args[0], 'atomic'))
 
+    @M.reg('Atomic::fetch_update', 'AtomicU64::fetch_update', 'AtomicUsize::fetch_update')
+    def atomic_fetch_update(ip, pc, args, dt):
+        # one atomic step (the CAS loop of fetch_update retries until it applies f to the value it stores over)
+        a = read_loc(args[0].loc)
+        yield from sched_point(ip, 'fetch_update ' + a.name)
+        old = a.cell.v
+        r = yield from ip.call_closure(args[3], [old])
+        from models_core import variant_of, ok, err
+        if variant_of(ip, r) == 1:
+            touch(ip.path, 'atomic-write', a.name)
+            a.cell.v = r.payload[1][0]
+            return ok(old)
+        return err(old)
+
     @M.reg('AtomicBool::load')
     def atomic_bool_load(ip, pc, args, dt):
         a = read_loc(args[0].loc)
